@@ -14,7 +14,7 @@ from common import Ctx, Counters, Failure, main_wrapper, run_workers
 PID = "C16"
 RULE = ("Hypothesis-generated configurations (every output incl. failing sinks /dev/full, directory, missing socket/dir; every "
         "data source incl. a format naming all of them; every filter with and without arguments; valid, invalid, duplicate and "
-        "continuation-line options; syntactically broken files: stray lines, unterminated section header, over-long line) x exec inputs x runs of 3..8 (thorough: up to 200) identical calls after two warm-up calls, "
+        "continuation-line options; syntactically broken files: stray lines, unterminated section header, over-long line) x exec inputs x runs of 3..8 identical calls (plus runs of 300, thorough 1100, calls for representative configurations) after two warm-up calls, "
         "in plain -O2 builds with and without thread safety. Observed before the call / at real-exec entry / after return: fd "
         "table (numbers, targets, flags), live heap (mallinfo2, tcache off), environ pointer+content hash, cwd, umask, signal "
         "mask, all sigactions, RLIMIT_NOFILE, bytes pending in the caller's stdout buffer. Oracle: all equal at the three points, heap growth exactly 0 at exec entry and "
@@ -86,7 +86,7 @@ def evaluate(env, c):
     for variant in env.builds:
         d = env.driver(variant)
         out = d.out
-        n = 200 if c.get("long") else c["n"]
+        n = c["n"]
         ops = [drv.op("x", out + "/log", out + "/log-x-0")]
         for fd in (1, 2):
             ops.append(drv.op("S", fd, c["stdio"]))
@@ -155,7 +155,7 @@ def classify(c):
     opens_fd = k in ("file", "filetpl", "socket", "devlog", "default", "devnull", "devtty", "file-devfull")
     nontriv = errpath or opens_fd or bool(c["feats"])
     key = (k, tuple(sorted(set(c["feats"]))), gen.vec_class(c["argv"]), c["kind"]) if nontriv else None
-    cls = ["out:" + k, "stdio:" + c["stdio"], "n:%d" % (200 if c.get("long") else c["n"])] + sorted(set(c["feats"])) + (["caller-has-unflushed-stdout-data"] if c.get("pending") else [])
+    cls = ["out:" + k, "stdio:" + c["stdio"], "n:%d" % c["n"]] + sorted(set(c["feats"])) + (["caller-has-unflushed-stdout-data"] if c.get("pending") else [])
     if errpath:
         cls.append("error-path")
     return key, cls
@@ -255,13 +255,15 @@ def main():
                        "injection is exercised by C03"]
     nw, per = (4, 350) if ctx.quick else (16, 3000)
     fixed = []
-    if not ctx.quick:
-        # long runs: 200 identical calls for a handful of representative configurations
-        for kind, opts in [("file", [(b"output", b"file:@OUT@/log")]), ("default", []), ("stdout", [(b"output", b"stdout")]),
-                           ("file-devfull", [(b"output", b"file:/dev/full")]), ("socket", [(b"output", b"socket:@OUT@/sock")])]:
+    if True:
+        # long runs: 300 (quick) / 1100 (thorough) identical calls for a handful of representative configurations -- the 100th or
+        # 1000th call of a process must leave as little behind as the 3rd
+        longs = [("file", [(b"output", b"file:@OUT@/log")]), ("default", []), ("stdout", [(b"output", b"stdout")]),
+                 ("file-devfull", [(b"output", b"file:/dev/full")]), ("socket", [(b"output", b"socket:@OUT@/sock")])]
+        for kind, opts in longs[:2] if ctx.quick else longs:
             o2 = opts + [(b"message_format", ALL_DS), (b"filter_chain", b"exclude_spawns_of:zz;only_uid:0")]
             fixed.append({"cfg": {"kind": kind, "ini": gen.render_ini(o2), "opts": o2}, "feats": ["all-data-sources"], "kind": "e",
-                          "argv": [b"a", b"b"], "envp": [b"X=1"], "n": 200, "stdio": "pipe", "long": True})
+                          "argv": [b"a", b"b"], "envp": [b"X=1"], "n": 300 if ctx.quick else 1100, "stdio": "pipe", "long": True})
     pbt.run(ctx, builds, strategy, evaluate, classify, nw, per, sample=sample, fixed_cases=fixed)
     if not ctx.replay:
         fault_phase(ctx, builds["ts-plain"])
